@@ -328,3 +328,82 @@ SUBS = [
     Sub("thermal", check_thermal, gen=thermal_cases, quick=50, thorough=500, shards=4),
     Sub("beam", check_beam, gen=beam_cases, quick=60, thorough=800, shards=4),
 ]
+
+
+# ------------------------------------------------------------------------------------------
+# hyperelastic statics: small load steps on small meshes, laws built on invariants (isotropic)
+
+
+@st.composite
+def hyper_cases(draw):
+    dim = draw(st.sampled_from([2, 2, 3]))
+    if dim == 2:
+        r = draw(gm.recipes2d(types=["TRI3", "QUAD4", "TRI6", "QUAD8"], affine_ok=False, hmin=6, hmax=9, nmax=4))
+    else:
+        r = draw(gm.recipes3d(types=["TETRA4", "PRISM6", "HEXA8"], affine_ok=False, nmax=4))
+    law = draw(st.sampled_from(["NeoHookean", "MooneyRivlin", "SaintVenantKirchhoff", "CiarletGeymonat"]))
+    vec = lambda lo, hi, den: [draw(st.integers(lo, hi)) / den for _ in range(dim)]  # noqa
+    return dict(recipe=r, law=law, iso=draw(isometries(dim)), dirang=draw(st.integers(0, 11)), ud=vec(-3, 3, 100.0),
+                trac=vec(-4, 4, 40.0), body=vec(-4, 4, 40.0))
+
+
+def _hyper_law(name, dim):
+    H = Models.HyperElastic
+    if name == "NeoHookean":
+        return H.NeoHookean(dim, K=5.0)
+    if name == "MooneyRivlin":
+        return H.MooneyRivlin(dim, K1=2.0, K2=1.0, K=50.0)
+    if name == "SaintVenantKirchhoff":
+        return H.SaintVenantKirchhoff(dim, 3.0, 1.5)
+    return H.CiarletGeymonat(dim, K1=2.0, K2=1.0, K=50.0)
+
+
+def check_hyper(case, rec):
+    r = case["recipe"]
+    dim = gm.dim_of(r["elemType"])
+    mesh = gm.build(r)
+    if mesh.Nn > 80:
+        raise Inconclusive("mesh too large for a Newton solve in the quick oracle")
+    types = gm.mesh_types(mesh)
+    iso = case["iso"]
+    Q, fmap = iso_matrix(iso)
+    sig = dict(elemType=r["elemType"], types=types, law=case["law"], dim=dim, iso=iso["kind"])
+    rec.label("hyper:" + case["law"], "types:" + types, "iso:" + iso["kind"])
+    mesh2 = move_mesh(mesh, iso)
+    X = np.asarray(mesh.coord, float)
+    ang = case["dirang"] * np.pi / 6
+    dirvec = np.array([np.cos(ang), np.sin(ang), 0.3 if dim == 3 else 0.0])
+    sets = patches(mesh, dirvec)
+    cf = X[sets[0]] - X[sets[0]].mean(axis=0)
+    sv = np.linalg.svd(cf, compute_uv=False) if sets[0].size >= 2 else np.zeros(3)
+    if sv[dim - 2] < 0.1 * np.ptp(X, axis=0).max():
+        raise Inconclusive("clamped patch does not restrain the rigid modes robustly")
+    unk = ["x", "y", "z"][:dim]
+
+    def solve(m, Qm):
+        try:
+            mat = _hyper_law(case["law"], dim)
+        except TypeError:
+            raise Inconclusive("law constructor signature differs")
+        simu = Simulations.HyperElastic(m, mat)
+        Qd = Qm[:dim, :dim]
+        simu.add_dirichlet(sets[0], [float(v) for v in Qd @ np.array(case["ud"], float)], unk)
+        simu.add_surfLoad(sets[1], [float(v) for v in Qd @ np.array(case["trac"], float)], unk)
+        simu.add_volumeLoad(gm.used_nodes(m), [float(v) for v in Qd @ np.array(case["body"], float)], unk)
+        try:
+            u = np.asarray(simu.Solve(), float).reshape(m.Nn, dim)
+        except Exception as e:
+            if "converge" in str(e).lower() or "det(F)" in str(e):
+                raise Inconclusive("Newton did not converge")
+            raise
+        return u
+
+    u1 = solve(mesh, np.eye(3))
+    u2 = solve(mesh2, Q)
+    used = gm.used_nodes(mesh)
+    rec.close((u2 - u1 @ Q[:dim, :dim].T)[used], np.abs(u1).max() + 1e-6, 1e-6, "u_rotated_hyperelastic",
+              f"{case['law']} {types} {iso['kind']} theta={iso['theta']}: u' != Q u", **sig)
+    rec.nontrivial(nontrivial_iso(iso) and any(abs(v) > 0 for k in ("ud", "trac", "body") for v in case[k]))
+
+
+SUBS.append(Sub("hyperelastic", check_hyper, gen=hyper_cases, quick=40, thorough=400, shards=6))
